@@ -367,7 +367,7 @@ class SparseEncoding(Encoding):
         return sp.csc_matrix((values, indices, indptr), shape=(self.size, 1))
 
     def _flat_indices(self, indices):
-        assert indices.shape[1] == 3 and len(indices.shape) == 2
+        assert len(indices.shape) == 2
         return np.ravel_multi_index(indices.T, self.shape)
 
     def _shaped_indices(self, flat_indices):
@@ -380,11 +380,11 @@ class SparseEncoding(Encoding):
         return np.asarray(mat).squeeze(axis=-1)
 
     def mask(self, mask):
-        i, _ = np.where(self._csc[mask.reshape((-1,))])
-        return self._shaped_indices(i)
+        mat = self._csc[mask.reshape((-1,))].todense()
+        return np.asarray(mat).squeeze(axis=-1)
 
     def get_value(self, index):
-        return self._gather_nd(np.expand_dims(index, axis=0))[0]
+        return self.gather_nd(np.expand_dims(index, axis=0))[0]
 
     @caching.cache_decorator
     def stripped(self):
